@@ -1,15 +1,20 @@
 #!/usr/bin/env python3
-"""Import round-2 seeds from /tmp/seed2/<Cxx>/_seed/mK into /verif/seeded/<Cxx>-r2mK (see tools/seedtest.py)."""
+"""Import the seeds of a later round:  tools/seedimport2.py [--round N] Cxx …
+from /tmp/seedN/<Cxx>/_seed/mK into /verif/seeded/<Cxx>-rNmK (see tools/seedtest.py). Default round: 2."""
 import json, os, re, subprocess, sys
 V = os.path.dirname(os.path.dirname(os.path.abspath(__file__)))
-for prop in sys.argv[1:]:
-    base = "/tmp/seed2/%s/_seed" % prop
+args = sys.argv[1:]
+rnd = 2
+if args and args[0] == "--round":
+    rnd = int(args[1]); args = args[2:]
+for prop in args:
+    base = "/tmp/seed%d/%s/_seed" % (rnd, prop)
     for m in sorted(os.listdir(base)):
         if not re.match(r"m\d+$", m):
             continue
         src = os.path.join(base, m)
-        dst = os.path.join(V, "seeded", "%s-r2%s" % (prop, m))
-        subprocess.check_call([sys.executable, os.path.join(V, "tools/seedtest.py"), "import", prop, src, "--name", "r2" + m], stdout=subprocess.DEVNULL)
+        dst = os.path.join(V, "seeded", "%s-r%d%s" % (prop, rnd, m))
+        subprocess.check_call([sys.executable, os.path.join(V, "tools/seedtest.py"), "import", prop, src, "--name", "r%d" % rnd + m], stdout=subprocess.DEVNULL)
         readme = open(os.path.join(src, "README.md")).read()
         runs = [l.strip() for l in re.findall(r"go test[^`\n]*", readme)]
         runs = [re.split(r"\s+(?:#|->|\()", r)[0].strip() for r in runs]
@@ -20,6 +25,6 @@ for prop in sys.argv[1:]:
         meta["demo_run"] = run
         meta["demo_dir_dest"] = pkg.lstrip("./") or "."
         meta["demo_dest"] = ""
-        meta["round"] = 2
+        meta["round"] = rnd
         json.dump(meta, open(os.path.join(dst, "meta.json"), "w"), indent=1)
         print(dst, "|", meta["demo_dir_dest"], "|", run)
